@@ -306,6 +306,7 @@ impl Interpreter {
             rng_state: self.rng.verif_state(),
             token_reads: 0,
             line_count: 0,
+            nesting_depth: 0,
         };
         self.program.verif_fill(&mut probe);
         probe
